@@ -33,6 +33,7 @@ use crate::error::Error;
 use crate::utils::init;
 
 use super::{EitherIter, FromTLV, TLVElement, TLVSequenceIter, TLVTag, TLVWrite, ToTLV, TLV};
+use crate::tlv::TLVSequence;
 
 /// A type-state that indicates that the container can be any type of container (array, list or struct).
 pub type AnyContainer = ();
@@ -91,7 +92,12 @@ where
 
     /// Returns an iterator over the elements of the container.
     pub fn iter(&self) -> TLVContainerIter<'a, T> {
-        TLVContainerIter::new(unwrap!(self.element.container()).iter())
+        // An empty element (accepted by `new` and `from_tlv`: an absent field) has no items.
+        // Anything else was checked to be a container by `new` / `from_tlv`; an element that
+        // is not one (possible only by misusing `new_unchecked`) has no items either.
+        let seq = self.element.container().unwrap_or(TLVSequence::EMPTY);
+
+        TLVContainerIter::new(seq.iter())
     }
 }
 
@@ -226,6 +232,11 @@ where
     C: 'a,
 {
     fn from_tlv(element: &TLVElement<'a>) -> Result<Self, Error> {
+        if !element.is_empty() {
+            // Data coming from the wire: never defer the check to `iter()`
+            element.container()?;
+        }
+
         Ok(Self::new_unchecked(element.clone()))
     }
 }
